@@ -60,6 +60,39 @@ def compare_mask(ctx, pid, s, n, mask, mbox, grid, aligned, tx, ty, mode, av=5):
     return True
 
 
+def replay_mask_state(ctx, pid, st, k, rnd):
+    """One model state (shape, n, exact sample counts) against the real centre / sub-pixel mask."""
+    s, n, m = st['shape'], st['arg'], st['res']
+    tx, ty = rnd.choice([(0, 0), (3, -5), (1000, 77), (-10000, 4096)])
+    fr = geom.Frame(2, 1.0, float(tx), float(ty), rnd.randint(0, 5))
+    try:
+        if k % 4 == 1 and geom_supported(s, 'center'):
+            # built with other parameters, masked once, then assigned the wanted parameters
+            region = geom.build_via_assign(s, fr, lambda r: (r.to_mask(mode='center'), r.to_mask(mode='subpixels', subpixels=3) if geom_supported(s, 'subpixels') else None))
+        else:
+            region = geom.build(s, fr)
+        if n == 1:
+            mask = region.to_mask(mode='center')
+            if geom_supported(s, 'subpixels'):
+                m2 = region.to_mask(mode='subpixels', subpixels=1)
+                if not (np.array_equal(m2.data, mask.data) and m2.bbox == mask.bbox):
+                    ctx.violation(f'{pid}|n1|{kind_sig(s)}', "to_mask('subpixels', 1) differs from to_mask('center')", {'shape': s})
+            vals = set(np.unique(mask.data).tolist())
+            if not vals <= {0, 1, 0.0, 1.0}:
+                ctx.violation(f'{pid}|binary|{kind_sig(s)}', f'centre mask holds values {sorted(vals)[:5]}', {'shape': s})
+        else:
+            mask = region.to_mask(mode='subpixels', subpixels=n)
+    except Exception as ex:
+        ctx.violation(f"{pid}|to_mask|{kind_sig(s)}|{type(ex).__name__}", f'to_mask raised {ex!r}', {'shape': s, 'n': n})
+        return
+    grid = [v for row in m['grid'] for v in row]
+    nz = [v for v in grid if v not in (-1, 0)]
+    ctx.case(('mask', geom.shape_key(s), n), len(nz) > 0)
+    ok = compare_mask(ctx, pid, s, n, mask, m['box'], grid, m['aligned'], tx, ty, 'center' if n == 1 else 'subpixels', fr.av)
+    if ok and k % 401 == 0:
+        ctx.sample({'shape': s, 'n': n, 'box': m['box'], 'grid': m['grid']})
+
+
 def run(ctx):
     quick = ctx.tier == 'quick'
     rnd = random.Random(ctx.seed * 1000003 + 2)
@@ -76,36 +109,8 @@ def run(ctx):
             continue
         k = 0
         for st in parse_dump(res.dump_path, only='pc = "ret"'):
-            s, n, m = st['shape'], st['arg'], st['res']
             k += 1
-            tx, ty = rnd.choice([(0, 0), (3, -5), (1000, 77), (-10000, 4096)])
-            fr = geom.Frame(2, 1.0, float(tx), float(ty), rnd.randint(0, 5))
-            try:
-                if k % 4 == 1 and geom_supported(s, 'center'):
-                    # built with other parameters, masked once, then assigned the wanted parameters
-                    region = geom.build_via_assign(s, fr, lambda r: r.to_mask(mode='center'))
-                else:
-                    region = geom.build(s, fr)
-                if n == 1:
-                    mask = region.to_mask(mode='center')
-                    if geom_supported(s, 'subpixels'):
-                        m2 = region.to_mask(mode='subpixels', subpixels=1)
-                        if not (np.array_equal(m2.data, mask.data) and m2.bbox == mask.bbox):
-                            ctx.violation(f'C02|n1|{kind_sig(s)}', "to_mask('subpixels', 1) differs from to_mask('center')", {'shape': s})
-                    vals = set(np.unique(mask.data).tolist())
-                    if not vals <= {0, 1, 0.0, 1.0}:
-                        ctx.violation(f'C02|binary|{kind_sig(s)}', f'centre mask holds values {sorted(vals)[:5]}', {'shape': s})
-                else:
-                    mask = region.to_mask(mode='subpixels', subpixels=n)
-            except Exception as ex:
-                ctx.violation(f"C02|to_mask|{kind_sig(s)}|{type(ex).__name__}", f'to_mask raised {ex!r}', {'shape': s, 'n': n})
-                continue
-            grid = [v for row in m['grid'] for v in row]
-            nz = [v for v in grid if v not in (-1, 0)]
-            ctx.case(('mask', geom.shape_key(s), n), len(nz) > 0)
-            ok = compare_mask(ctx, 'C02', s, n, mask, m['box'], grid, m['aligned'], tx, ty, 'center' if n == 1 else 'subpixels', fr.av)
-            if ok and k % 401 == 0:
-                ctx.sample({'shape': s, 'n': n, 'box': m['box'], 'grid': m['grid']})
+            replay_mask_state(ctx, 'C02', st, k, rnd)
         ctx.traces += k
         ctx.note(f'replayed_{fam}_{subn}', k)
         tlc.cleanup(res.workdir)
